@@ -333,6 +333,36 @@ pub fn scripted(r: &mut Report, seed: u64) {
             }
         }
     }
+    // a far BEP42-secure node that a single responder knows, and that responder answers late: when the
+    // referral arrives, twenty or more (partly insecure) nodes have already answered - secure-first order
+    // still ranks the far secure node among the first 20 entries
+    let mut slow: Vec<u64> = vec![0; n];
+    if plan == 2 && n >= 28 && rng.bool() {
+        let secure_far: Vec<usize> = (0..n).filter(|i| secure(&ends[*i])).collect();
+        if let Some(&f) = secure_far.first() {
+            // a secure id far from the target: random filler, first bit opposite to the target's
+            let mut filler: [u8; 20] = rng.array();
+            filler[0] = !center[0];
+            let minted = crate::crc32c::bep42_mint(*ends[f].1.ip(), rng.u32() as u8, filler);
+            if !ends.iter().any(|e| e.0 == minted) {
+                ends[f].0 = minted;
+            }
+            let l = (f + 1 + rng.usize(n - 1)) % n;
+            for (i, k) in knows.iter_mut().enumerate() {
+                if i != l {
+                    k.retain(|j| *j != f);
+                    if k.is_empty() {
+                        k.push((i + 2) % n);
+                    }
+                }
+            }
+            knows[l] = vec![f, (l + 1) % n];
+            // the late answer still arrives inside the 500 ms request timeout: at most 60 ms each way + 350 ms
+            w.set_latency(MS, 60 * MS);
+            slow[l] = (200 + rng.below(150)) * MS;
+            r.count("scripted_worlds_with_a_late_referral_to_a_far_secure_node");
+        }
+    }
     let holders: Vec<bool> = (0..n).map(|_| rng.chance(1, 4)).collect();
     // late joiners: up to three endpoints right next to the target that nobody lists and that stay silent
     // until they are revealed (then everybody lists them)
@@ -354,7 +384,7 @@ pub fn scripted(r: &mut Report, seed: u64) {
     let hostile_order = rng.chance(1, 3);
     let socks: Vec<SockId> = ends.iter().map(|e| w.raw(e.1)).collect();
     {
-        let (ends, knows, holders, socks, hidden, revealed) = (ends.clone(), knows.clone(), holders.clone(), socks.clone(), hidden.clone(), revealed.clone());
+        let (ends, knows, holders, socks, hidden, revealed, slow) = (ends.clone(), knows.clone(), holders.clone(), socks.clone(), hidden.clone(), revealed.clone(), slow.clone());
         let mut rr = Rng::new(mix(seed, 0x5c21));
         w.set_responder(Some(Box::new(move |w, sock, d| {
             let Some(idx) = socks.iter().position(|s| *s == sock) else { return false };
@@ -395,7 +425,7 @@ pub fn scripted(r: &mut Report, seed: u64) {
                 }
             }
             let msg = response(&q.t, B::dict(rd), Some(&d.from), Some(&VERSION_RS6));
-            w.raw_send(sock, &msg.encode(), d.from);
+            w.raw_send_delayed(sock, &msg.encode(), d.from, slow[idx]);
             true
         })));
     }
@@ -539,7 +569,7 @@ pub fn run(a: &Args) -> Report {
         super::guarded(&mut r, json!({"class":"lookup","seed":p.seed.to_string(),"servers":p.servers,"plan":p.plan,"lookups":p.lookups}), |r| scenario(r, &p));
         r.count("worlds");
     }
-    for _ in 0..(if a.quick() { 160 } else { 3200 }) / a.nshards.max(1) {
+    for _ in 0..(if a.quick() { 480 } else { 6400 }) / a.nshards.max(1) {
         let seed = rng.u64();
         super::guarded(&mut r, json!({"class":"scripted","seed":seed.to_string()}), |r| scripted(r, seed));
         r.count("scripted_worlds");
